@@ -156,6 +156,8 @@ def py_fn(t):
     if k == 'noneif':
         p = py_fn(t[1])
         return lambda x: None if p(x) else x
+    if k == 'tostr':         # Python only: a string built at run time (equal strings are not identical objects)
+        return lambda x: 's%d' % x
     if k == 'torange':       # Python only (no Coq model): an iterable that is neither list nor tuple
         return lambda x: range(abs(x) % 4)
     if k == 'todeque':
